@@ -78,6 +78,11 @@ Lemma kw_const f x : kw12 f (s "const", YPlain x) = KwConst (rd_plain reader12 x
 Proof. reflexivity. Qed.
 Lemma kw_enum f l : kw12 f (s "enum", YSeq (map YPlain l)) = KwEnum (map (rd_plain reader12) l).
 Proof. unfold kw12. cbn [fst snd denote]. rewrite map_map. reflexivity. Qed.
+(* string const / in values are tagged !!str: a YAML 1.2 reader gets the string itself, whatever it spells *)
+Lemma kw_const_str f x : kw12 f (s "const", YStr x) = KwConst (JVStr x).
+Proof. reflexivity. Qed.
+Lemma kw_enum_str f l : kw12 f (s "enum", YSeq (map YStr l)) = KwEnum (map JVStr l).
+Proof. unfold kw12. cbn [fst snd denote]. rewrite map_map. reflexivity. Qed.
 Lemma kw_unique f : kw12 f (s "uniqueItems", YBool true) = KwUniqueItems true.
 Proof. reflexivity. Qed.
 
@@ -90,12 +95,10 @@ Proof.
 Qed.
 
 Lemma existsb_str_enum x l :
-  forallb (reads_as_string reader12) l = true ->
-  existsb (fun e => jv_eqb e (JVStr x)) (map (rd_plain reader12) l) = mem_str x l.
+  existsb (fun e => jv_eqb e (JVStr x)) (map JVStr l) = mem_str x l.
 Proof.
-  unfold mem_str. induction l as [|a l IH]; intros H; [reflexivity|].
-  cbn [forallb] in H. apply andb_prop in H as [Ha Hl].
-  cbn [map existsb]. rewrite (reads_as_string_eq _ Ha), IH by assumption.
+  unfold mem_str. induction l as [|a l IH]; [reflexivity|].
+  cbn [map existsb]. rewrite IH.
   cbn [jv_eqb]. now rewrite (str_eqb_sym a x).
 Qed.
 
@@ -121,11 +124,9 @@ Qed.
 
 Lemma string_block n f props x r :
   rules_wf r = true -> is_zero (r_max_len r) = false -> r_len r = None -> r_str_not_in r = [] ->
-  forallb (reads_as_string reader12) (r_str_in r ++ match r_str_const r with Some c => [c] | None => [] end) = true ->
   blk n f props (JVStr x) (string_entries r) (sat_string P r x).
 Proof.
-  intros Hwf Hz Hlen Hnotin Hread.
-  rewrite forallb_app in Hread. apply andb_prop in Hread as [Hin Hconst].
+  intros Hwf Hz Hlen Hnotin.
   unfold string_entries, sat_string. rewrite Hlen, Hnotin. change (mem_str x []) with false. cbn [opt_all negb].
   rewrite (opos_not_zero _ Hz).
   assert (Hfmt : blk n f props (JVStr x)
@@ -134,13 +135,12 @@ Proof.
   { unfold rules_wf in Hwf. destruct (r_well_known r) as [w|]; [|apply blk_nil].
     rewrite (format_supported _ Hwf). cbn [oent]. apply blk_one. rewrite kw_format. reflexivity. }
   assert (Hin' : blk n f props (JVStr x)
-            (match r_str_in r with [] => [] | l => [(s "enum", YSeq (map YPlain l))] end)
+            (match r_str_in r with [] => [] | l => [(s "enum", YSeq (map YStr l))] end)
             (match r_str_in r with [] => true | l => mem_str x l end)).
-  { destruct (r_str_in r) as [|a l] eqn:E; [apply blk_nil|]. apply blk_one. rewrite kw_enum.
+  { destruct (r_str_in r) as [|a l] eqn:E; [apply blk_nil|]. apply blk_one. rewrite kw_enum_str.
     unfold chk. cbn [check_kw]. now rewrite existsb_str_enum. }
-  assert (Hc : blk n f props (JVStr x) (oent (r_str_const r) "const" YPlain) (opt_all (r_str_const r) (fun c => str_eqb c x))).
-  { destruct (r_str_const r) as [c|]; [|apply blk_nil]. cbn [oent]. apply blk_one. rewrite kw_const.
-    cbn [forallb] in Hconst. apply andb_prop in Hconst as [Hc _]. rewrite (reads_as_string_eq _ Hc). reflexivity. }
+  assert (Hc : blk n f props (JVStr x) (oent (r_str_const r) "const" YStr) (opt_all (r_str_const r) (fun c => str_eqb c x))).
+  { destruct (r_str_const r) as [c|]; [|apply blk_nil]. cbn [oent]. apply blk_one. rewrite kw_const_str. reflexivity. }
   pose proof (blk_app _ _ _ _ _ _ _ _
                (blk_oent n f props (JVStr x) (opos (r_min_len r)) "minLength" ynat (fun m => (m <=? utf8_len x)%N)
                   (fun a => eq_trans (f_equal (chk n props (JVStr x)) (kw_minLength f a)) eq_refl))
@@ -284,9 +284,7 @@ Proof.
     (if is_string_kind k then
        (if is_zero (r_max_len r) then [ZeroMaxDropped] else []) ++
        (if isSome (r_len r) then [StringLenIgnored] else []) ++
-       (if nonempty (r_str_not_in r) then [StringNotInIgnored] else []) ++
-       (if forallb (reads_as_string reader12) (r_str_in r ++ match r_str_const r with Some c => [c] | None => [] end)
-        then [] else [UntaggedStringScalar])
+       (if nonempty (r_str_not_in r) then [StringNotInIgnored] else [])
      else []) = []).
   { destruct c; try discriminate Hc; exact Hd. }
   clear Hd. apply app_eq_nil in Hd' as [Hwrong Hd']. apply app_eq_nil in Hd' as [Hnum Hstr].
@@ -311,12 +309,11 @@ Proof.
     + now apply numeric_block.
     + rewrite (no_numeric_rules_entries _ Hst), (no_numeric_rules_sat _ _ Hst). apply blk_nil.
   - (* string *) cbn [is_string_kind] in Hstr.
-    apply app_eq_nil in Hstr as [Hz Hstr]. apply app_eq_nil in Hstr as [Hlen Hstr]. apply app_eq_nil in Hstr as [Hni Hread].
+    apply app_eq_nil in Hstr as [Hz Hstr]. apply app_eq_nil in Hstr as [Hlen Hni].
     apply if_nil in Hz, Hlen, Hni.
     unfold scalar_json. apply string_block; try assumption.
     + unfold isSome in Hlen. destruct (r_len r); [discriminate|reflexivity].
     + unfold nonempty in Hni. destruct (r_str_not_in r); [reflexivity|discriminate].
-    + destruct (forallb (reads_as_string reader12) _); [reflexivity|discriminate Hread].
 Qed.
 
 (* ---- collections ------------------------------------------------------------------------------------- *)
@@ -579,15 +576,103 @@ Theorem refuted_len_ignored : refutes StringLenIgnored (fsp KString Singular fal
 Proof. refute. Qed.
 Theorem refuted_not_in_ignored : refutes StringNotInIgnored (fsp KString Singular false) (str_rules None None None [s "root"] None) (FOne (RStr (s "root"))).
 Proof. refute. Qed.
-(* string [const: "123"] is published as const: 123 (a number): "123" satisfies the rule and is rejected *)
-Theorem refuted_untagged_scalar : refutes UntaggedStringScalar (fsp KString Singular false) (str_rules None None None [] (Some (s "123"))) (FOne (RStr (s "123"))).
-Proof. refute. Qed.
 (* repeated string [items.string.min_len: 2]: ["a"] violates the rule, the schema says nothing about items *)
 Theorem refuted_item_rules : refutes ItemRulesIgnored (fsp KString Repeated false) (str_rules (Some 2%N) None None [] None) (FList [RStr (s "a")]).
 Proof. refute. Qed.
 (* string [max_len: 0]: "a" violates the rule, maxLength: 0 is not rendered *)
 Theorem refuted_zero_max : refutes ZeroMaxDropped (fsp KString Singular false) (str_rules None (Some 0%N) None [] None) (FOne (RStr (s "a"))).
 Proof. refute. Qed.
+
+(* ---- string const / in are strings (the repaired defect string-value-untagged-scalar) ------------------ *)
+(* The nodes of string const / in values carry the tag !!str.  For EVERY string c - "123", "true", "null",
+   "" included - the schema published for `string.const = c` accepts exactly the JSON string c and the one
+   for `string.in = l` exactly the JSON strings of l: no number, boolean or null is accepted in their place and
+   the string itself is never rejected.  (Before the repair `const: 123` was a number and rejected "123";
+   const "" crashed the plugin.) *)
+Definition fstr : fspec := fsp KString Singular false.
+Definition const_rules (c : str) : rules := str_rules None None None [] (Some c).
+Definition in_rules (l : list str) : rules :=
+  {| r_required := false; r_min_len := None; r_max_len := None; r_len := None; r_pattern := None;
+     r_str_in := l; r_str_not_in := []; r_str_const := None; r_well_known := None;
+     r_gt := None; r_gte := None; r_lt := None; r_lte := None; r_num_const := None; r_num_in := [];
+     r_min_items := None; r_max_items := None; r_unique := false; r_min_pairs := None; r_max_pairs := None |}.
+
+Lemma const_schema_y c : field_schema_y fstr (const_rules c) = YMap [(s "type", ystr "string"); (s "const", YStr c)].
+Proof. reflexivity. Qed.
+Lemma in_schema_y a l :
+  field_schema_y fstr (in_rules (a :: l)) = YMap [(s "type", ystr "string"); (s "enum", YSeq (map YStr (a :: l)))].
+Proof. reflexivity. Qed.
+
+Theorem string_const_in_are_strings (P : vparams) (fuel : nat) (j : jv) :
+  1 <= fuel ->
+  (forall c, validates P [] fuel (translate reader12 fstr (const_rules c)) j
+             = VOk (match j with JVStr x => str_eqb c x | _ => false end)) /\
+  (forall a l, validates P [] fuel (translate reader12 fstr (in_rules (a :: l))) j
+               = VOk (match j with JVStr x => mem_str x (a :: l) | _ => false end)).
+Proof.
+  intros Hfuel. destruct fuel as [|n]; [lia|]. clear Hfuel.
+  split.
+  - intros c. unfold translate. rewrite const_schema_y. change schema_fuel with (S 7).
+    rewrite (schema_of_ymap 7). cbn [map]. rewrite kw_const_str.
+    change (kw12 7 (s "type", ystr "string")) with (KwType [TString]).
+    rewrite validates_obj. cbn [map]. unfold chk, vall. cbn [fold_right check_kw existsb].
+    destruct j as [| | | x | |]; cbn [has_type orb jv_eqb vand andb]; try reflexivity.
+    now rewrite andb_true_r.
+  - intros a l. unfold translate. rewrite in_schema_y. change schema_fuel with (S 7).
+    remember (a :: l) as al eqn:Eal. clear Eal.
+    rewrite (schema_of_ymap 7). cbn [map]. rewrite kw_enum_str.
+    change (kw12 7 (s "type", ystr "string")) with (KwType [TString]).
+    rewrite validates_obj. cbn [map]. unfold chk, vall. cbn [fold_right check_kw].
+    destruct j as [| | | x | |]; cbn [existsb has_type orb vand andb]; try reflexivity.
+    now rewrite andb_true_r, existsb_str_enum.
+Qed.
+
+(* the same nodes in the JSON rendering (the YAML text re-read by a YAML 1.1 resolver): the value is the string
+   itself unless it is one of the YAML 1.1 boolean words (y, yes, on, n, no, off, ...), which the v4 emitter
+   leaves plain - the separate C18 finding yaml11-bool-word *)
+Lemma mem_str_false_or x l1 l2 : (mem_str x l1 || mem_str x l2) = false -> mem_str x l1 = false /\ mem_str x l2 = false.
+Proof. apply orb_false_elim. Qed.
+
+Theorem string_node_json_rendering x :
+  yaml11_bool_word x = false -> denote reader11 (YStr x) = JVStr x /\ denote reader12 (YStr x) = JVStr x.
+Proof.
+  intros Hw. split; [|reflexivity]. cbn [denote reader11 rd_str].
+  destruct (resolve12 x) eqn:E12; try reflexivity.
+  unfold yaml11_bool_word in Hw. apply orb_false_elim in Hw as [Ht Hf].
+  unfold resolve12, resolve_with in E12. unfold resolve11, resolve_with.
+  destruct x as [|c r]; [discriminate E12|].
+  destruct (negb (no_control (c :: r))); [discriminate E12|].
+  destruct (numeric_start c); [destruct (plain_number (c :: r)); discriminate E12|].
+  destruct (str_eqb (c :: r) (s "~")); [discriminate E12|].
+  destruct (str_eqb (c :: r) (s "<<")); [discriminate E12|].
+  change (mem_str (c :: r) []) with false in E12. rewrite !orb_false_r in E12.
+  destruct (mem_str (c :: r) true_words); [discriminate E12|].
+  destruct (mem_str (c :: r) false_words); [discriminate E12|].
+  destruct (mem_str (c :: r) null_words); [discriminate E12|].
+  rewrite Ht, Hf. reflexivity.
+Qed.
+
+(* the hostile spellings, through the whole pipeline: emitted node, both renderings, verdicts *)
+Definition const_in_ok (c : str) : Prop :=
+  string_entries (const_rules c) = [(s "const", YStr c)] /\
+  denote reader12 (field_schema_y fstr (const_rules c)) = JVObj [(s "type", JVStr (s "string")); (s "const", JVStr c)] /\
+  denote reader11 (field_schema_y fstr (const_rules c)) = JVObj [(s "type", JVStr (s "string")); (s "const", JVStr c)] /\
+  defects_C19 fstr (const_rules c) = [] /\
+  validates P0 [] schema_fuel (translate reader12 fstr (const_rules c)) (JVStr c) = VOk true /\
+  validates P0 [] schema_fuel (translate reader12 fstr (const_rules c)) (rd_plain reader12 c) = VOk (reads_as_string reader12 c) /\
+  validates P0 [] schema_fuel (translate reader12 fstr (in_rules [c; s "x"])) (JVStr c) = VOk true /\
+  validates P0 [] schema_fuel (translate reader12 fstr (in_rules [s "x"; c])) (rd_plain reader12 c) = VOk (reads_as_string reader12 c).
+
+Example string_const_in_are_strings_examples :
+  Forall const_in_ok [s "123"; s "true"; s "null"; s ""; s "1.5"; s "-7"; s "~"; s "fixed"] /\
+  (* what an untagged node would have been read as: a number, a boolean, null - none of them is accepted any more *)
+  map (rd_plain reader12) [s "123"; s "true"; s "null"; s ""] = [JVNum (dec_of_Z 123); JVBool true; JVNull; JVNull] /\
+  map (reads_as_string reader12) [s "123"; s "true"; s "null"; s ""; s "fixed"] = [false; false; false; false; true].
+Proof.
+  split.
+  - repeat (apply Forall_cons; [unfold const_in_ok; vm_compute; repeat split|]). apply Forall_nil.
+  - vm_compute. split; reflexivity.
+Qed.
 
 (* ---- the theorem has content: a rule set in the good region that accepts some values and rejects others --- *)
 Definition good_string_rules : rules :=
